@@ -953,6 +953,18 @@ async def live_wiring():
     return obs
 
 
+def _close_loop(loop):
+    """cancel what the sessions left behind (aioftp does not cancel the wait tasks of a cancelled stream.wait())"""
+    try:
+        pending = [t for t in asyncio.all_tasks(loop) if not t.done()]
+        for t in pending:
+            t.cancel()
+        if pending:
+            loop.run_until_complete(asyncio.gather(*pending, return_exceptions=True))
+    finally:
+        loop.close()
+
+
 def check_wiring_live(ctx):
     try:
         exp, flags = wiring_expectations()
@@ -963,7 +975,7 @@ def check_wiring_live(ctx):
     try:
         obs = loop.run_until_complete(asyncio.wait_for(live_wiring(), 30))
     finally:
-        loop.close()
+        _close_loop(loop)
     ctx.traces_impl += 1
     ctx.extra["wiring_live"] = obs
     ctx.sample({"stream": "wiring", "observed": obs})
@@ -1098,7 +1110,7 @@ def stream_e2e(ctx):
                 ctx.notes.append(f"e2e {level}/{direction} skipped: {e}")
                 continue
         finally:
-            loop.close()
+            _close_loop(loop)
         ctx.traces_impl += 1
         ctx.case(("e2e", level, direction, nconn))
         shared = nconn if level in ("server", "user") else 1
@@ -1112,8 +1124,9 @@ def stream_e2e(ctx):
         if dur < lower:
             ctx.violation("an end-to-end transfer finished faster than the configured limit allows",
                           {"key": "c15-e2e-duration", "level": level, "direction": direction, "connections": nconn, "seconds": dur, "lower_bound": lower})
-        if dur > (total / limit) * 3 + 5:
-            ctx.violation("an end-to-end transfer was far slower than the limit requires",
+        # no excess delay / independence: per-connection limits must not add up across connections
+        if dur > total / limit + 1.2:
+            ctx.violation("an end-to-end transfer was slower than the limit requires (limits not independent, or excess delay)",
                           {"key": "c15-e2e-slow", "level": level, "direction": direction, "connections": nconn, "seconds": dur})
 
 
